@@ -156,7 +156,7 @@ CHECKS = {
              'token object when the callback runs are callback-mutable; afterwards any library query, read or write through them is a '
              'violation (only release is allowed) until the field is re-assigned from a snapshot taken before the callback. Non-zero '
              'callback result => failing call with flag and message; a callback-selected key/alg pair outside the setkey table is refused by some layer before a verdict (composition of jwt_checker_verify with the policy table); the public token '
-             'API cannot write jwt->alg/key. A callback failure is any non-zero value; a configured callback is always consulted before the verdict.',
+             'API cannot write jwt->alg/key. A callback failure is any non-zero value; a configured callback is always consulted before the verdict. The policy layer is evaluated with what the caller really leaves in the token object after the callback (a selection that is ignored bends the verdict).',
         design_ref='DESIGN.md section 3 C19',
         note='Trusted: clang front end, engine, API model. The only state a callback can change is what the public jwt_t API reaches '
              '(checked by the opaque-token effect rule).',
